@@ -151,6 +151,10 @@ def _s1a(program, res):
                         continue
                     # restriction: every value placed comes from the object's own field
                     own = _is_restriction(val, obj, field)
+                    if not own and isinstance(val, ast.Name):
+                        # a local built once by such a restriction
+                        defs_ = [a for a in ast.walk(m.node) if isinstance(a, ast.Assign) and len(a.targets) == 1 and unparse(a.targets[0]) == val.id]
+                        own = len(defs_) == 1 and _is_restriction(defs_[0].value, obj, field)
                     if own:
                         res.ok("C04-S1", f"{m.qualname}: `{unparse(t)} = ...` re-selects {obj}.{field}'s own entries (restriction; the key set is part of the container key)")
                     elif isinstance(val, (ast.List, ast.Dict)) and not (val.elts if isinstance(val, ast.List) else val.keys):
